@@ -54,7 +54,7 @@ func provenanceCheck(col *Collector, h *hist) {
 		for _, c := range t.cols {
 			mm[c.name] = [2]int{c.typ, c.md}
 		}
-		colTypes[t.db+"."+t.name] = mm
+		colTypes[t.db+"\x00"+t.name] = mm
 	}
 	type seen struct {
 		p uintptr
@@ -82,7 +82,7 @@ func provenanceCheck(col *Collector, h *hist) {
 								}
 							}
 							inZero := within(p, len(c.Data), replication.ZeroTimestamp)
-							tm := colTypes[e.Table.DbName+"."+e.Table.TableName][c.Filed]
+							tm := colTypes[e.Table.DbName+"\x00"+e.Table.TableName][c.Filed]
 							want := modelSaysSubSlice(tm[0], tm[1])
 							if inZero {
 								ok, key = false, "value-is-shared-constant"
